@@ -129,9 +129,9 @@ func cmdCheck(args []string) int {
 		fmt.Println("ERROR unknown property", *prop)
 		return 2
 	}
-	timeout := 20
+	timeout := 60
 	if *tier == "thorough" {
-		timeout = 120
+		timeout = 180
 	}
 	s, err := openSession(ps.Pkgs)
 	if err != nil {
@@ -222,7 +222,7 @@ func cmdCheck(args []string) int {
 			if len(f.exclude) > 0 && matchAny(f.exclude, o.Name) {
 				continue
 			}
-			if strings.HasPrefix(o.Label, "t3_") && *tier != "thorough" {
+			if isT3(o.Label) && *tier != "thorough" {
 				continue
 			}
 			if sweepFns[f.key] {
@@ -298,6 +298,21 @@ func cmdCheck(args []string) int {
 		}
 	}
 	dischargeAll(solverObls, dir, timeout, 5)
+	// one retry with a doubled timeout for obligations no solver decided (guards against load-induced timeouts)
+	var retry []*Obligation
+	for _, o := range solverObls {
+		if o.Status == "unknown" || (o.Status == "failed" && strings.Contains(o.Solver, "+relaxed")) {
+			if !isT3(o.Label) {
+				retry = append(retry, o)
+			}
+		}
+	}
+	if len(retry) > 0 && len(retry) <= 6 {
+		for _, o := range retry {
+			o.Status, o.Solver, o.Output, o.Model = "", "", "", ""
+		}
+		dischargeAll(retry, dir, 2*timeout, 3)
+	}
 
 	findings := loadFindings()
 	violations := 0
@@ -363,7 +378,7 @@ func cmdCheck(args []string) int {
 		if isKnown {
 			continue
 		}
-		if strings.HasPrefix(o.Label, "t3_") && o.Status == "unknown" {
+		if isT3(o.Label) && (o.Status == "unknown" || (o.Status == "failed" && strings.Contains(o.Solver, "+relaxed"))) {
 			undecidedT3 = append(undecidedT3, o.Name)
 			if o.Bounded == "" {
 				nTotal--
@@ -479,6 +494,11 @@ func cmdCheck(args []string) int {
 		return 1
 	}
 	return 0
+}
+
+// isT3: thorough-only clause (label t3_*, possibly prefixed by a loop name such as "loop0.")
+func isT3(label string) bool {
+	return strings.HasPrefix(label, "t3_") || strings.Contains(label, ".t3_")
 }
 
 func jobsInstances(ps *PropSpec) map[string][]string {
